@@ -576,6 +576,34 @@ def c18_require(agg):
     return need
 
 
+# ------------------------------------------------------------------ C20
+
+def c20_env(b):
+    e = {}
+    if b % 3 == 1:
+        e["IPCMON_DELAY"] = "%d:%d:%d" % (b + 23, 120, 300)
+    if b % 3 == 2:
+        e["IPCMON_WIDEN"] = "4:300:0"
+    return e
+
+
+def c20_plan(tier, seed):
+    q = tier == "quick"
+    return jobs("async-debug", "c20", 14 if q else 32, c20_env, {"cases": 16 if q else 250}, timeout=3000)
+
+
+def c20_require(agg):
+    st = agg["stats"]
+    need = []
+    for k, n in (("streams", 500), ("queued_before_conversion", 500), ("pending_polls", 100), ("wakeups_observed", 100),
+                 ("consumer_block_on", 100), ("consumer_LocalPool", 100), ("consumer_manual", 100)):
+        if st.get(k, 0) < n:
+            need.append("%s < %d" % (k, n))
+    if st.get("max_streams_in_one_scenario", 0) < 24:
+        need.append("no scenario with >=24 streams")
+    return need
+
+
 # ------------------------------------------------------------------ C19
 
 def c19_plan(tier, seed):
@@ -629,6 +657,21 @@ NOTES = ("Runtime monitoring and sanitizers. ./check <id> rebuilds the harness (
 NOT_APPLICABLE = {}
 
 PROPS = {
+    "C20": {
+        "plan": c20_plan,
+        "require": c20_require,
+        "level": "exploration",
+        "level_text": "Exploration (async feature build): 1..32 receivers with 0..50 messages each, up to 25 of them queued before conversion, are turned into streams from "
+                      "1..8 threads and consumed by three kinds of executor - block_on, a LocalPool running several streams on one thread, and manual poll_next with a "
+                      "counting waker - while 1..5 producer threads send the rest and drop the senders at seeded points. Each stream must yield exactly 0..n-1 with its own "
+                      "tag and intact payloads, then None, never None before the last sender's drop began and nothing after None; after a Pending result the registered "
+                      "waker must be invoked (the consumer waits for it instead of polling speculatively).",
+        "level_note": "'Never ends' and 'waker never invoked' are decided by the logical wait (20 s grace, then all other threads asleep without CPU use).",
+        "technique": "runtime monitoring: per-stream item logs with stamps and a counting waker across three executor kinds, logical hang detection for end-of-stream and wake-ups",
+        "rule": "case = one scenario of streams; distinct = per-stream (consumer kind, min(queued-before,3), min(messages,3)) sequence with the converting-thread count; "
+                "non-trivial = at least two streams",
+        "assumptions": ["the async router is a process-wide singleton; every scenario of a batch shares it"],
+    },
     "C18": {
         "plan": c18_plan,
         "post": c18_post,
